@@ -443,7 +443,7 @@ def wipe(d):
 
 
 def materialize(base, sc):
-    ldir, tmpd, repo = os.path.join(base, "local dir"), os.path.join(base, "tmp"), os.path.join(base, "repo")
+    ldir, tmpd, repo = os.path.join(base, "local dir"), os.path.join(base, "tmp"), os.path.join(base, "repo sp+\u00e9~")
     for d in (tmpd, repo) + (() if sc.get("keep_local") else (ldir,)):
         wipe(d)
     if not os.path.isdir(ldir):
@@ -497,8 +497,7 @@ def lines_arg(sc):
 
 def do_call(sc, local, remote):
     """the call under test through the scenario's entry point / spelling; every exception is an observation"""
-    ds = V.ds()
-    fn = getattr(ds, sc["fn"])
+    fn = V.api(sc["fn"])
     entry = sc["entry"]
     cwd = os.getcwd()
     try:
@@ -909,10 +908,16 @@ def history(base, seed, hidx, inputs, gcases, ncalls, stress_every=4):
             out.append({"call": k, "status": "error", "msg": str(e)})
             break
         skipped = not took_effect(sc, obs)
+        bad_ret = None
+        if sc["entry"] != "replace_file" and obs["outcome"] == "returned" and sc["remote_kind"] == "lines" and obs["ret"] != sc["explines"]:
+            bad_ret = "%s returned %s; specification: the lines of the decompressed file %s" % (describe(sc), V.short(obs["ret"], 120), V.short(sc["explines"], 120))
+        if isinstance(obs["ret"], list):        # the returned list belongs to the caller: whatever happens to it must not come back
+            obs["ret"].append("appended by the caller\n")
+            del obs["ret"][:1]
         out.append({"call": k, "status": "ok", "skipped": skipped, "summary": describe(sc), "trace": trace_of(sc, obs),
                     "outcome": obs["outcome"], "exc": obs["exc"], "loc": obs["loc"], "tmp_left": obs["tmp_left"], "extra": obs["extra_entries"],
                     "entry": sc["entry"], "inject": sc["inject"]["how"], "size": obs.get("size", 0),
-                    "bystanders_same": obs["bystanders_same"], "kept": fixed is not None, "repeat": bool(sc.get("repeat"))})
+                    "bystanders_same": obs["bystanders_same"], "kept": fixed is not None, "repeat": bool(sc.get("repeat")), "bad_ret": bad_ret})
     shutil.rmtree(hbase, ignore_errors=True)
     return out
 
